@@ -11,3 +11,6 @@ open Spydr.IR
 #print axioms Spydr.IR.run_sep
 #print axioms Spydr.IR.sep_double
 #print axioms Spydr.IR.clone_edits_invisible_in_original
+#print axioms Spydr.IR.clone_edits_invisible_fields
+#print axioms Spydr.IR.original_edits_invisible_in_clone
+#print axioms Spydr.IR.original_edits_invisible_fields
